@@ -61,6 +61,13 @@ func (r *Run) frameItems(env *SpecEnv, fc *FuncContract) []frameItem {
 						v := r.eval(env, x.Args[0])
 						items = append(items, frameItem{kind: "mapof", mt: types.Unalias(v.T).Underlying().(*types.Map), ref: v.t})
 						return
+					case "chanof":
+						v := r.eval(env, x.Args[0])
+						bk, hk, tk := r.eng.chanKeys(chanElem(v.T))
+						for _, key := range []string{bk, hk, tk} {
+							items = append(items, frameItem{kind: "ident", key: key})
+						}
+						return
 					case "maps":
 						K := r.specTypeArg(env, x.Args[0])
 						V := r.specTypeArg(env, x.Args[1])
@@ -134,7 +141,7 @@ func (r *Run) frameGoal(items []frameItem, entry, st *State, k string, x Term) (
 			}
 		}
 		return implies(pre, eq(cur, exp)), true
-	case strings.HasPrefix(k, "A|"):
+	case strings.HasPrefix(k, "A|") && !strings.HasPrefix(k, "A|CB"):
 		exp := sel(e0, x)
 		cur := sel(e1, x)
 		for _, it := range items {
